@@ -16,7 +16,7 @@ vf::Shape shape() {
   sh.n_tangents = 2;        // direction of the perturbation, a second tangent for the tangent-side clauses
   sh.tp = TP_MODERATE;
   sh.ep = EP_WIDE;          // coordinates 1e-8 .. 1e9
-  sh.scalars = {SK_EPS, SK_LOGS, SK_SIGNED_MAG};
+  sh.scalars = {SK_EPS, SK_LOGS, SK_SIGNED_MAG, SK_UNIT, SK_UNIT};   // last two: norms of the tangent pair of the symmetry clause, in units of eps
   sh.ints = {{0, 1}};       // use the default eps instead of the generated one
   sh.is_float = kIsFloat;
   return sh;
@@ -99,6 +99,21 @@ vf::Outcome run_case(const vf::Case& c, const vf::RunCtx& ctx) {
           k.require("relative: far", !c2 && !d2, "t and t*(1+100 eps) approx");
           k.require("tangent symmetric", a == b && c2 == d2, "tangent isApprox not symmetric");
         }
+      }
+    }
+    // ---- tangents: symmetry for pairs whose norms lie anywhere around eps (0.01 eps .. 100 eps each, independent directions)
+    {
+      const double na = (double)U.coeffs().norm(), nb = (double)dir.coeffs().norm();
+      const double lo = kIsFloat ? 1e-30 : 1e-280;
+      if (na > lo && nb > lo && na < 1e30 && nb < 1e30) {
+        const double fa = std::pow(10.0, 4 * c.reals[R + 2 * D + 3] - 2), fb = std::pow(10.0, 4 * c.reals[R + 2 * D + 4] - 2);
+        TangentT a = U, b = dir;
+        a.coeffs() *= (Scalar)(fa * (double)eps / na); b.coeffs() *= (Scalar)(fb * (double)eps / nb);
+        k.require("tangent symmetric (norms around eps)", a.isApprox(b, eps) == b.isApprox(a, eps), "tangent isApprox not symmetric for |a| = " + fmt(fa) + " eps, |b| = " + fmt(fb) + " eps");
+        // same direction, different length: the absolute branch decides on the difference alone
+        TangentT b2 = U; b2.coeffs() *= (Scalar)(fb * (double)eps / na);
+        k.require("tangent symmetric (collinear, norms around eps)", a.isApprox(b2, eps) == b2.isApprox(a, eps), "tangent isApprox not symmetric for collinear |a| = " + fmt(fa) + " eps, |b| = " + fmt(fb) + " eps");
+        if ((fa < 1) != (fb < 1)) k.label("tangent pair straddles eps");
       }
     }
     k.o.nontrivial = coord >= 1e3 || has_q || std::fabs(std::fabs(sexp) - 1) < 1e-9;
